@@ -1,10 +1,1114 @@
-//! C11 — stub: property not yet claimed.
+//! C11 — generated clients and servers agree with each other and with checked-in code.
+//!
+//! Runs the real generators at run time (`CodeGenBuilder` on a hand-made `tonic_build::Service`,
+//! `manual::Builder`, and the prost path `configure()…compile_fds`) on generated service
+//! descriptors, parses what they emit with `syn` and extracts, per method, what the client sends
+//! (path literal, `GrpcMethod` literals, `Grpc::<call>`, request/response shapes and types) and
+//! what the server dispatches on (match-arm literal, `*Service` trait, `grpc.<call>`, types),
+//! plus `SERVICE_NAME` / `NamedService::NAME`.  `e2e` cases drive the *compiled* generated
+//! clients of the build-time pool against the compiled generated servers.  `regen` runs the real
+//! `codegen` binary on a scratch copy of the repo and byte-compares with the committed files.
+use crate::c10::pool::{self, Built, Ev, Handler, Reg, Wrap, POOL};
 use crate::common::*;
+use proc_macro2::TokenStream;
+use quote::ToTokens;
+use std::path::{Path, PathBuf};
+use syn::visit::Visit;
 
-pub fn generate(_tier: &str, _rng: &mut Rng) -> Vec<String> {
-    Vec::new()
+// ---------------------------------------------------------------------------------------------
+// descriptors
+
+#[derive(Clone, Debug)]
+struct MDesc {
+    name: String,
+    ident: String,
+    cs: bool,
+    ss: bool,
+    input: String,
+    output: String,
 }
 
-pub fn execute(_case: &str) -> String {
-    "unclaimed".into()
+#[derive(Clone, Debug)]
+struct SDesc {
+    name: String,
+    package: String,
+    ident: String,
+    methods: Vec<MDesc>,
+}
+
+impl tonic_build::Method for MDesc {
+    type Comment = String;
+    fn name(&self) -> &str {
+        &self.name
+    }
+    fn identifier(&self) -> &str {
+        &self.ident
+    }
+    fn codec_path(&self) -> &str {
+        "tonic::codec::ProstCodec"
+    }
+    fn client_streaming(&self) -> bool {
+        self.cs
+    }
+    fn server_streaming(&self) -> bool {
+        self.ss
+    }
+    fn comment(&self) -> &[String] {
+        &[]
+    }
+    fn request_response_name(&self, _proto_path: &str, _wkt: bool) -> (TokenStream, TokenStream) {
+        (
+            syn::parse_str::<syn::Path>(&self.input).unwrap().to_token_stream(),
+            syn::parse_str::<syn::Path>(&self.output).unwrap().to_token_stream(),
+        )
+    }
+}
+
+impl tonic_build::Service for SDesc {
+    type Comment = String;
+    type Method = MDesc;
+    fn name(&self) -> &str {
+        &self.name
+    }
+    fn package(&self) -> &str {
+        &self.package
+    }
+    fn identifier(&self) -> &str {
+        &self.ident
+    }
+    fn methods(&self) -> &[MDesc] {
+        &self.methods
+    }
+    fn comment(&self) -> &[String] {
+        &[]
+    }
+}
+
+fn dash(s: &str) -> &str {
+    if s.is_empty() {
+        "-"
+    } else {
+        s
+    }
+}
+fn undash(s: &str) -> String {
+    if s == "-" {
+        String::new()
+    } else {
+        s.to_string()
+    }
+}
+fn fl(b: bool) -> &'static str {
+    if b {
+        "1"
+    } else {
+        "0"
+    }
+}
+
+// ---------------------------------------------------------------------------------------------
+// extraction from the emitted code
+
+fn strip(ts: impl ToTokens) -> String {
+    ts.to_token_stream().to_string().chars().filter(|c| !c.is_whitespace()).collect()
+}
+
+const CALLS: [&str; 4] = ["unary", "server_streaming", "client_streaming", "streaming"];
+
+#[derive(Default, Debug)]
+struct ArmInfo {
+    literal: String,
+    call: Vec<String>,
+    svc_trait: Vec<String>,
+    req: Vec<String>,
+    resp: Vec<String>,
+    req_stream: bool,
+    resp_stream: bool,
+    fns: Vec<String>,
+}
+
+struct ArmVisitor<'a>(&'a mut ArmInfo);
+
+impl<'ast, 'a> Visit<'ast> for ArmVisitor<'a> {
+    fn visit_item_impl(&mut self, i: &'ast syn::ItemImpl) {
+        if let Some((_, path, _)) = &i.trait_ {
+            if let Some(seg) = path.segments.last() {
+                let id = seg.ident.to_string();
+                if id.ends_with("Service") {
+                    self.0.svc_trait.push(id);
+                    if let syn::PathArguments::AngleBracketed(ab) = &seg.arguments {
+                        for a in &ab.args {
+                            if let syn::GenericArgument::Type(t) = a {
+                                self.0.req.push(strip(t));
+                            }
+                        }
+                    }
+                    for it in &i.items {
+                        match it {
+                            syn::ImplItem::Type(t) if t.ident == "Response" => self.0.resp.push(strip(&t.ty)),
+                            syn::ImplItem::Type(t) if t.ident == "ResponseStream" => self.0.resp_stream = true,
+                            syn::ImplItem::Fn(f) if f.sig.ident == "call" => {
+                                for arg in &f.sig.inputs {
+                                    if let syn::FnArg::Typed(pt) = arg {
+                                        if strip(&pt.ty).contains("Streaming<") {
+                                            self.0.req_stream = true;
+                                        }
+                                    }
+                                }
+                            }
+                            _ => {}
+                        }
+                    }
+                }
+            }
+        }
+        syn::visit::visit_item_impl(self, i);
+    }
+    fn visit_expr_path(&mut self, p: &'ast syn::ExprPath) {
+        if p.qself.is_some() {
+            if let Some(seg) = p.path.segments.last() {
+                self.0.fns.push(seg.ident.to_string());
+            }
+        }
+        syn::visit::visit_expr_path(self, p);
+    }
+    fn visit_expr_method_call(&mut self, m: &'ast syn::ExprMethodCall) {
+        let name = m.method.to_string();
+        if CALLS.contains(&name.as_str()) && strip(&m.receiver) == "grpc" {
+            self.0.call.push(name);
+        }
+        syn::visit::visit_expr_method_call(self, m);
+    }
+}
+
+#[derive(Default, Debug)]
+struct ClientInfo {
+    fname: String,
+    path: Vec<String>,
+    gm: Vec<(String, String)>,
+    call: Vec<String>,
+    req_stream: Option<bool>,
+    resp_stream: Option<bool>,
+    req: String,
+    resp: String,
+}
+
+struct ClientVisitor<'a>(&'a mut ClientInfo);
+
+fn lit_str(e: &syn::Expr) -> Option<String> {
+    if let syn::Expr::Lit(l) = e {
+        if let syn::Lit::Str(s) = &l.lit {
+            return Some(s.value());
+        }
+    }
+    None
+}
+
+impl<'ast, 'a> Visit<'ast> for ClientVisitor<'a> {
+    fn visit_expr_call(&mut self, c: &'ast syn::ExprCall) {
+        if let syn::Expr::Path(p) = &*c.func {
+            let segs: Vec<String> = p.path.segments.iter().map(|s| s.ident.to_string()).collect();
+            if segs.last().map(|s| s == "from_static").unwrap_or(false) {
+                if let Some(s) = c.args.first().and_then(lit_str) {
+                    self.0.path.push(s);
+                }
+            }
+            if segs.len() >= 2 && segs[segs.len() - 2] == "GrpcMethod" && segs[segs.len() - 1] == "new" {
+                let a: Vec<Option<String>> = c.args.iter().map(lit_str).collect();
+                if let [Some(x), Some(y)] = a.as_slice() {
+                    self.0.gm.push((x.clone(), y.clone()));
+                }
+            }
+        }
+        syn::visit::visit_expr_call(self, c);
+    }
+    fn visit_expr_method_call(&mut self, m: &'ast syn::ExprMethodCall) {
+        let name = m.method.to_string();
+        if CALLS.contains(&name.as_str()) && strip(&m.receiver) == "self.inner" {
+            self.0.call.push(name);
+        }
+        syn::visit::visit_expr_method_call(self, m);
+    }
+}
+
+fn generic_args(seg: &syn::PathSegment) -> Vec<&syn::GenericArgument> {
+    match &seg.arguments {
+        syn::PathArguments::AngleBracketed(ab) => ab.args.iter().collect(),
+        _ => Vec::new(),
+    }
+}
+
+fn client_fn(f: &syn::ImplItemFn) -> Option<ClientInfo> {
+    let mut info = ClientInfo { fname: f.sig.ident.to_string(), ..Default::default() };
+    ClientVisitor(&mut info).visit_block(&f.block);
+    if info.path.is_empty() && info.call.is_empty() {
+        return None; // a builder method (new, with_origin, send_compressed, …)
+    }
+    // request: impl tonic::IntoRequest<Req> | impl tonic::IntoStreamingRequest<Message = Req>
+    for arg in &f.sig.inputs {
+        if let syn::FnArg::Typed(pt) = arg {
+            if let syn::Type::ImplTrait(it) = &*pt.ty {
+                for bnd in &it.bounds {
+                    if let syn::TypeParamBound::Trait(tb) = bnd {
+                        if let Some(seg) = tb.path.segments.last() {
+                            let id = seg.ident.to_string();
+                            if id == "IntoRequest" {
+                                info.req_stream = Some(false);
+                            } else if id == "IntoStreamingRequest" {
+                                info.req_stream = Some(true);
+                            }
+                            for a in generic_args(seg) {
+                                match a {
+                                    syn::GenericArgument::Type(t) => info.req = strip(t),
+                                    syn::GenericArgument::AssocType(at) if at.ident == "Message" => info.req = strip(&at.ty),
+                                    _ => {}
+                                }
+                            }
+                        }
+                    }
+                }
+            }
+        }
+    }
+    // -> Result<tonic::Response<Resp | tonic::codec::Streaming<Resp>>, tonic::Status>
+    if let syn::ReturnType::Type(_, ty) = &f.sig.output {
+        if let syn::Type::Path(tp) = &**ty {
+            if let Some(res) = tp.path.segments.last() {
+                if let Some(syn::GenericArgument::Type(syn::Type::Path(rp))) = generic_args(res).first() {
+                    if let Some(resp_seg) = rp.path.segments.last() {
+                        if resp_seg.ident == "Response" {
+                            if let Some(syn::GenericArgument::Type(inner)) = generic_args(resp_seg).first() {
+                                let mut streaming = false;
+                                if let syn::Type::Path(ip) = inner {
+                                    if let Some(last) = ip.path.segments.last() {
+                                        if last.ident == "Streaming" && ip.path.segments.len() > 1 {
+                                            if let Some(syn::GenericArgument::Type(t)) = generic_args(last).first() {
+                                                streaming = true;
+                                                info.resp = strip(t);
+                                            }
+                                        }
+                                    }
+                                }
+                                if !streaming {
+                                    info.resp = strip(inner);
+                                }
+                                info.resp_stream = Some(streaming);
+                            }
+                        }
+                    }
+                }
+            }
+        }
+    }
+    Some(info)
+}
+
+#[derive(Default)]
+struct Extracted {
+    service_name: Option<String>,
+    named: Option<String>,
+    scrutinee: Option<String>,
+    default_code: Option<String>,
+    server: Option<Vec<ArmInfo>>,
+    client: Option<Vec<ClientInfo>>,
+    problems: Vec<String>,
+}
+
+struct CodePathVisitor(Option<String>);
+impl<'ast> Visit<'ast> for CodePathVisitor {
+    fn visit_path(&mut self, p: &'ast syn::Path) {
+        let segs: Vec<String> = p.segments.iter().map(|s| s.ident.to_string()).collect();
+        if let Some(pos) = segs.iter().position(|s| s == "Code") {
+            if pos + 1 < segs.len() && self.0.is_none() {
+                self.0 = Some(segs[pos + 1].clone());
+            }
+        }
+        syn::visit::visit_path(self, p);
+    }
+}
+
+fn find_match(block: &syn::Block) -> Option<&syn::ExprMatch> {
+    for st in &block.stmts {
+        if let syn::Stmt::Expr(syn::Expr::Match(m), _) = st {
+            return Some(m);
+        }
+    }
+    None
+}
+
+fn extract(file: &syn::File) -> Extracted {
+    let mut ex = Extracted::default();
+    for item in &file.items {
+        let syn::Item::Mod(m) = item else { continue };
+        let Some((_, items)) = &m.content else { continue };
+        let mname = m.ident.to_string();
+        if mname.ends_with("_server") {
+            if ex.server.is_some() {
+                ex.problems.push("two-server-modules".into());
+            }
+            let mut arms_out = Vec::new();
+            for it in items {
+                match it {
+                    syn::Item::Const(c) if c.ident == "SERVICE_NAME" => {
+                        ex.service_name = lit_str(&c.expr);
+                    }
+                    syn::Item::Impl(im) => {
+                        let Some((_, path, _)) = &im.trait_ else { continue };
+                        let last = path.segments.last().map(|s| s.ident.to_string()).unwrap_or_default();
+                        if last == "NamedService" {
+                            for ii in &im.items {
+                                if let syn::ImplItem::Const(c) = ii {
+                                    if c.ident == "NAME" {
+                                        ex.named = Some(match lit_str(&c.expr) {
+                                            Some(s) => s,
+                                            None => format!("expr:{}", strip(&c.expr)),
+                                        });
+                                    }
+                                }
+                            }
+                        } else if last == "Service" {
+                            for ii in &im.items {
+                                let syn::ImplItem::Fn(f) = ii else { continue };
+                                if f.sig.ident != "call" {
+                                    continue;
+                                }
+                                let Some(mt) = find_match(&f.block) else {
+                                    ex.problems.push("no-match-in-call".into());
+                                    continue;
+                                };
+                                ex.scrutinee = Some(strip(&mt.expr));
+                                for arm in &mt.arms {
+                                    match &arm.pat {
+                                        syn::Pat::Lit(l) => {
+                                            let mut info = ArmInfo::default();
+                                            if let syn::Lit::Str(s) = &l.lit {
+                                                info.literal = s.value();
+                                            } else {
+                                                ex.problems.push("non-string-arm".into());
+                                            }
+                                            if arm.guard.is_some() {
+                                                ex.problems.push("guarded-arm".into());
+                                            }
+                                            ArmVisitor(&mut info).visit_expr(&arm.body);
+                                            arms_out.push(info);
+                                        }
+                                        syn::Pat::Wild(_) => {
+                                            let mut v = CodePathVisitor(None);
+                                            v.visit_expr(&arm.body);
+                                            ex.default_code = v.0;
+                                        }
+                                        other => ex.problems.push(format!("odd-arm:{}", strip(other))),
+                                    }
+                                }
+                            }
+                        }
+                    }
+                    _ => {}
+                }
+            }
+            ex.server = Some(arms_out);
+        } else if mname.ends_with("_client") {
+            if ex.client.is_some() {
+                ex.problems.push("two-client-modules".into());
+            }
+            let mut fns = Vec::new();
+            for it in items {
+                if let syn::Item::Impl(im) = it {
+                    if im.trait_.is_some() {
+                        continue;
+                    }
+                    for ii in &im.items {
+                        if let syn::ImplItem::Fn(f) = ii {
+                            if let Some(ci) = client_fn(f) {
+                                fns.push(ci);
+                            }
+                        }
+                    }
+                }
+            }
+            ex.client = Some(fns);
+        }
+    }
+    // `const NAME: &str = SERVICE_NAME`
+    if ex.named.as_deref() == Some("expr:SERVICE_NAME") {
+        ex.named = ex.service_name.clone();
+    }
+    ex
+}
+
+fn one(v: &[String]) -> String {
+    match v {
+        [x] => tok(x),
+        [] => "none".into(),
+        _ => "multiple".into(),
+    }
+}
+
+/// a token of the line protocol: non-empty, no whitespace
+fn tok(s: &str) -> String {
+    if s.is_empty() {
+        "-".into()
+    } else if s.chars().any(|c| c.is_whitespace()) {
+        hex(s.as_bytes())
+    } else {
+        s.to_string()
+    }
+}
+
+/// `fn_known`: print Rust fn names; otherwise print `=` when (index-wise) the client fn and the
+/// trait fn the server forwards to are the same identifier, else both names.
+fn render(ex: &Extracted, fn_known: bool) -> String {
+    if !ex.problems.is_empty() {
+        return format!("unexpected-shape {}", ex.problems.join(","));
+    }
+    let mut out = Vec::new();
+    if ex.server.is_some() {
+        out.push(format!(
+            "name {} {} on {} default {}",
+            tok(ex.service_name.as_deref().unwrap_or("none")),
+            tok(ex.named.as_deref().unwrap_or("none")),
+            tok(ex.scrutinee.as_deref().unwrap_or("none")),
+            tok(ex.default_code.as_deref().unwrap_or("none"))
+        ));
+    } else {
+        out.push("name - - on - default -".into());
+    }
+    let fn_tok = |k: usize, own: &str| -> String {
+        if fn_known {
+            return tok(own);
+        }
+        match (&ex.server, &ex.client) {
+            (Some(s), Some(c)) => {
+                let sf = s.get(k).map(|a| one(&a.fns));
+                let cf = c.get(k).map(|c| c.fname.clone());
+                if sf.is_some() && sf == cf {
+                    "=".into()
+                } else {
+                    format!("{}!={}", sf.unwrap_or_default(), cf.unwrap_or_default())
+                }
+            }
+            _ => "=".into(),
+        }
+    };
+    match &ex.server {
+        None => out.push("server -".into()),
+        Some(arms) => {
+            out.push(format!("server {}", arms.len()));
+            for (k, a) in arms.iter().enumerate() {
+                out.push(format!(
+                    "{} {} {} {} {} {} {} {}",
+                    tok(&a.literal),
+                    one(&a.call),
+                    one(&a.svc_trait),
+                    fl(a.req_stream),
+                    fl(a.resp_stream),
+                    one(&a.req),
+                    one(&a.resp),
+                    fn_tok(k, &one(&a.fns))
+                ));
+            }
+        }
+    }
+    match &ex.client {
+        None => out.push("client -".into()),
+        Some(fns) => {
+            out.push(format!("client {}", fns.len()));
+            for (k, c) in fns.iter().enumerate() {
+                let (gs, gm) = match c.gm.as_slice() {
+                    [(a, b)] => (tok(a), tok(b)),
+                    [] => ("none".into(), "none".into()),
+                    _ => ("multiple".into(), "multiple".into()),
+                };
+                out.push(format!(
+                    "{} {} {} {} {} {} {} {} {}",
+                    fn_tok(k, &c.fname),
+                    one(&c.path),
+                    gs,
+                    gm,
+                    one(&c.call),
+                    c.req_stream.map(fl).unwrap_or("none"),
+                    c.resp_stream.map(fl).unwrap_or("none"),
+                    tok(&c.req),
+                    tok(&c.resp)
+                ));
+            }
+        }
+    }
+    out.join(" ")
+}
+
+// ---------------------------------------------------------------------------------------------
+// generators
+
+fn tmp_dir(tag: &str) -> PathBuf {
+    use std::sync::atomic::{AtomicU64, Ordering};
+    static N: AtomicU64 = AtomicU64::new(0);
+    let d = std::env::temp_dir().join(format!("verif-c11-{}-{}-{}", tag, std::process::id(), N.fetch_add(1, Ordering::Relaxed)));
+    let _ = std::fs::remove_dir_all(&d);
+    std::fs::create_dir_all(&d).unwrap();
+    d
+}
+
+struct DirGuard(PathBuf);
+impl Drop for DirGuard {
+    fn drop(&mut self) {
+        let _ = std::fs::remove_dir_all(&self.0);
+    }
+}
+
+fn read_all_rs(dir: &Path) -> String {
+    let mut names: Vec<PathBuf> = std::fs::read_dir(dir).unwrap().map(|e| e.unwrap().path()).collect();
+    names.sort();
+    let mut s = String::new();
+    for p in names {
+        if p.extension().map(|e| e == "rs").unwrap_or(false) {
+            s.push_str(&std::fs::read_to_string(&p).unwrap());
+            s.push('\n');
+        }
+    }
+    s
+}
+
+fn parse_methods(t: &[&str], w: usize, n: usize) -> Option<Vec<Vec<String>>> {
+    if t.len() != n * w {
+        return None;
+    }
+    Some(t.chunks(w).map(|c| c.iter().map(|s| s.to_string()).collect()).collect())
+}
+
+fn run_gen(t: &[&str]) -> String {
+    // gen <emit> <arc> <stubs> <transport> <sides> <pkg> <name> <ident> <n> {fn ident cs ss in out}
+    if t.len() < 10 {
+        return "bad-case".into();
+    }
+    let (emit, arc, stubs, transport) = (t[1] == "1", t[2] == "1", t[3] == "1", t[4] == "1");
+    let sides = t[5];
+    let n: usize = match t[9].parse() {
+        Ok(n) => n,
+        Err(_) => return "bad-case".into(),
+    };
+    let Some(ms) = parse_methods(&t[10..], 6, n) else { return "bad-case".into() };
+    let svc = SDesc {
+        name: t[7].to_string(),
+        package: undash(t[6]),
+        ident: t[8].to_string(),
+        methods: ms
+            .iter()
+            .map(|m| MDesc { name: m[0].clone(), ident: m[1].clone(), cs: m[2] == "1", ss: m[3] == "1", input: m[4].clone(), output: m[5].clone() })
+            .collect(),
+    };
+    let mut b = tonic_build::CodeGenBuilder::new();
+    b.emit_package(emit).use_arc_self(arc).generate_default_stubs(stubs).build_transport(transport);
+    let mut ts = TokenStream::new();
+    if sides != "client" {
+        ts.extend(b.generate_server(&svc, "super"));
+    }
+    if sides != "server" {
+        ts.extend(b.generate_client(&svc, "super"));
+    }
+    match syn::parse2::<syn::File>(ts) {
+        Ok(f) => render(&extract(&f), true),
+        Err(e) => format!("emitted-code-does-not-parse {}", tok(&e.to_string())),
+    }
+}
+
+fn run_manual(t: &[&str]) -> String {
+    // manual <transport> <sides> <pkg> <name> <n> {fn route cs ss in out}
+    if t.len() < 6 {
+        return "bad-case".into();
+    }
+    let transport = t[1] == "1";
+    let sides = t[2];
+    let n: usize = match t[5].parse() {
+        Ok(n) => n,
+        Err(_) => return "bad-case".into(),
+    };
+    let Some(ms) = parse_methods(&t[6..], 6, n) else { return "bad-case".into() };
+    let mut sb = tonic_build::manual::Service::builder().name(t[4]).package(undash(t[3]));
+    for m in &ms {
+        let mut mb = tonic_build::manual::Method::builder()
+            .name(&m[0])
+            .route_name(&m[1])
+            .input_type(&m[4])
+            .output_type(&m[5])
+            .codec_path("tonic::codec::ProstCodec");
+        if m[2] == "1" {
+            mb = mb.client_streaming();
+        }
+        if m[3] == "1" {
+            mb = mb.server_streaming();
+        }
+        sb = sb.method(mb.build());
+    }
+    let dir = tmp_dir("manual");
+    let _g = DirGuard(dir.clone());
+    tonic_build::manual::Builder::new()
+        .build_client(sides != "server")
+        .build_server(sides != "client")
+        .build_transport(transport)
+        .out_dir(&dir)
+        .compile(&[sb.build()]);
+    match syn::parse_file(&read_all_rs(&dir)) {
+        Ok(f) => render(&extract(&f), true),
+        Err(e) => format!("emitted-code-does-not-parse {}", tok(&e.to_string())),
+    }
+}
+
+fn run_prost(t: &[&str]) -> String {
+    // prost <emit> <arc> <stubs> <sides> <pkg> <service> <n> {method cs ss inMsg outMsg}
+    use prost_types::*;
+    if t.len() < 8 {
+        return "bad-case".into();
+    }
+    let (emit, arc, stubs) = (t[1] == "1", t[2] == "1", t[3] == "1");
+    let sides = t[4];
+    let pkg = undash(t[5]);
+    let n: usize = match t[7].parse() {
+        Ok(n) => n,
+        Err(_) => return "bad-case".into(),
+    };
+    let Some(ms) = parse_methods(&t[8..], 5, n) else { return "bad-case".into() };
+    let fq = |m: &str| if pkg.is_empty() { format!(".{m}") } else { format!(".{pkg}.{m}") };
+    let mut msgs: Vec<String> = ms.iter().flat_map(|m| [m[3].clone(), m[4].clone()]).collect();
+    msgs.sort();
+    msgs.dedup();
+    let file = FileDescriptorProto {
+        name: Some("t.proto".into()),
+        package: if pkg.is_empty() { None } else { Some(pkg.clone()) },
+        message_type: msgs.iter().map(|m| DescriptorProto { name: Some(m.clone()), ..Default::default() }).collect(),
+        service: vec![ServiceDescriptorProto {
+            name: Some(t[6].to_string()),
+            method: ms
+                .iter()
+                .map(|m| MethodDescriptorProto {
+                    name: Some(m[0].clone()),
+                    input_type: Some(fq(&m[3])),
+                    output_type: Some(fq(&m[4])),
+                    client_streaming: Some(m[1] == "1"),
+                    server_streaming: Some(m[2] == "1"),
+                    options: None,
+                })
+                .collect(),
+            options: None,
+        }],
+        syntax: Some("proto3".into()),
+        ..Default::default()
+    };
+    let dir = tmp_dir("prost");
+    let _g = DirGuard(dir.clone());
+    let mut b = tonic_build::configure()
+        .out_dir(&dir)
+        .emit_rerun_if_changed(false)
+        .use_arc_self(arc)
+        .generate_default_stubs(stubs)
+        .build_client(sides != "server")
+        .build_server(sides != "client");
+    if !emit {
+        b = b.disable_package_emission();
+    }
+    if let Err(e) = b.compile_fds(FileDescriptorSet { file: vec![file] }) {
+        return format!("generator-error {}", tok(&e.to_string()));
+    }
+    match syn::parse_file(&read_all_rs(&dir)) {
+        Ok(f) => render(&extract(&f), false),
+        Err(e) => format!("emitted-code-does-not-parse {}", tok(&e.to_string())),
+    }
+}
+
+// ---------------------------------------------------------------------------------------------
+// end to end through the compiled pool
+
+fn pool_block(i: usize) -> String {
+    let (pkg, name, ms) = POOL[i];
+    let mut s = format!("{} {} {} {}", i, dash(pkg), name, ms.len());
+    for (r, k) in ms.iter() {
+        s.push_str(&format!(" {} {}", r, k));
+    }
+    s
+}
+
+fn e2e_line(api: &str, wrap: Wrap, reg: &[usize], i: usize, j: usize, len: usize) -> String {
+    let mut s = format!("e2e {} {} {}", api, wrap.token(), reg.len());
+    for &r in reg {
+        s.push(' ');
+        s.push_str(&pool_block(r));
+    }
+    s.push_str(&format!(" target {} {} {}", pool_block(i), j, len));
+    s
+}
+
+/// parse one pool block, checking it against the compiled pool; returns (idx, tokens consumed)
+fn take_pool_block(t: &[&str]) -> Option<(usize, usize)> {
+    let i: usize = t.first()?.parse().ok()?;
+    if i >= POOL.len() {
+        return None;
+    }
+    let want = pool_block(i);
+    let w: Vec<&str> = want.split(' ').collect();
+    if t.len() < w.len() || t[..w.len()] != w[..] {
+        return None;
+    }
+    Some((i, w.len()))
+}
+
+fn run_e2e(t: &[&str]) -> String {
+    if t.len() < 4 {
+        return "bad-case".into();
+    }
+    let api = t[1];
+    let Some(wrap) = Wrap::parse(t[2]) else { return "bad-case".into() };
+    let Ok(n) = t[3].parse::<usize>() else { return "bad-case".into() };
+    let mut pos = 4;
+    let mut regv = Vec::new();
+    for _ in 0..n {
+        let Some((i, used)) = take_pool_block(&t[pos..]) else { return "bad-case".into() };
+        regv.push(i);
+        pos += used;
+    }
+    if t.get(pos) != Some(&"target") {
+        return "bad-case".into();
+    }
+    pos += 1;
+    let Some((ti, used)) = take_pool_block(&t[pos..]) else { return "bad-case".into() };
+    pos += used;
+    if t.len() != pos + 2 {
+        return "bad-case".into();
+    }
+    let (Ok(j), Ok(len)) = (t[pos].parse::<usize>(), t[pos + 1].parse::<usize>()) else { return "bad-case".into() };
+    if j >= POOL[ti].2.len() || api == "server" {
+        return "bad-case".into();
+    }
+    let h = Handler::default();
+    let Some(mut reg) = Reg::new(api) else { return "bad-case".into() };
+    for &i in &regv {
+        pool::add(&mut reg, i, wrap, h.clone());
+    }
+    let Built::Routes(routes) = reg.finish() else { return "bad-case".into() };
+    let rt = tokio::runtime::Builder::new_current_thread().enable_all().build().unwrap();
+    let res = rt.block_on(pool::client_call(ti, j, routes, "x".repeat(len)));
+    let hits: Vec<(usize, usize, usize)> = h.events().iter().filter_map(|e| if let Ev::Hit(i, j, n) = e { Some((*i, *j, *n)) } else { None }).collect();
+    let hit = match hits.as_slice() {
+        [] => "hit - - -".to_string(),
+        [(i, j, n)] => format!("hit {} {} {}", crate::c10::full_name(*i), POOL[*i].2[*j].0, n),
+        _ => "hit multiple multiple multiple".to_string(),
+    };
+    match res {
+        Ok(v) => format!("{hit} ok {}", v.iter().map(|x| x.to_string()).collect::<Vec<_>>().join(" ")),
+        Err(st) => format!("{hit} err {}", st.code() as i32),
+    }
+}
+
+// ---------------------------------------------------------------------------------------------
+// regeneration clause
+
+fn repo_dir() -> PathBuf {
+    match std::env::var_os("VERIF_REPO") {
+        Some(p) => PathBuf::from(p),
+        None => Path::new(env!("CARGO_MANIFEST_DIR")).join("../../repo"),
+    }
+}
+
+fn files_under(root: &Path) -> Vec<PathBuf> {
+    let mut out = Vec::new();
+    let mut stack = vec![root.to_path_buf()];
+    while let Some(d) = stack.pop() {
+        let Ok(rd) = std::fs::read_dir(&d) else { continue };
+        for e in rd.flatten() {
+            let p = e.path();
+            if p.is_dir() {
+                if p.file_name().map(|n| n == "target").unwrap_or(false) {
+                    continue;
+                }
+                stack.push(p);
+            } else {
+                out.push(p.strip_prefix(root).unwrap().to_path_buf());
+            }
+        }
+    }
+    out.sort();
+    out
+}
+
+fn write_if_changed(dst: &Path, content: &[u8]) {
+    if std::fs::read(dst).map(|c| c == content).unwrap_or(false) {
+        return;
+    }
+    if let Some(p) = dst.parent() {
+        let _ = std::fs::create_dir_all(p);
+    }
+    std::fs::write(dst, content).unwrap();
+}
+
+/// Make `dst` an exact copy of `src` touching only files whose content differs (so cargo's
+/// mtime fingerprints stay valid between runs).
+fn sync_dir(src: &Path, dst: &Path) {
+    let want = files_under(src);
+    for rel in &want {
+        write_if_changed(&dst.join(rel), &std::fs::read(src.join(rel)).unwrap());
+    }
+    for rel in files_under(dst) {
+        if !want.contains(&rel) {
+            let _ = std::fs::remove_file(dst.join(rel));
+        }
+    }
+}
+
+const GEN_CRATES: [&str; 3] = ["tonic-health", "tonic-reflection", "tonic-types"];
+
+fn run_regen() -> String {
+    let repo = repo_dir();
+    if !repo.join("codegen/src/main.rs").exists() {
+        return "regen-failed no-codegen-crate".into();
+    }
+    // fixed scratch location inside the harness's (git-ignored) target dir: the codegen binary
+    // is rebuilt only when codegen/ or tonic-build/ changed
+    let scratch = Path::new(env!("CARGO_MANIFEST_DIR")).join("target").join("c11-regen");
+    std::fs::create_dir_all(&scratch).unwrap();
+    sync_dir(&repo.join("codegen"), &scratch.join("codegen"));
+    sync_dir(&repo.join("tonic-build"), &scratch.join("tonic-build"));
+    for c in GEN_CRATES {
+        sync_dir(&repo.join(c).join("proto"), &scratch.join(c).join("proto"));
+        let g = scratch.join(c).join("src/generated");
+        let _ = std::fs::remove_dir_all(&g);
+        std::fs::create_dir_all(&g).unwrap();
+    }
+    // the repo's workspace manifest restricted to the two crates the generator needs
+    let root = std::fs::read_to_string(repo.join("Cargo.toml")).unwrap();
+    let Some(a) = root.find("members = [") else { return "regen-failed workspace-manifest-shape".into() };
+    let Some(b) = root[a..].find(']').map(|k| a + k) else { return "regen-failed workspace-manifest-shape".into() };
+    let manifest = format!("{}members = [\"codegen\", \"tonic-build\"{}", &root[..a], &root[b..]);
+    write_if_changed(&scratch.join("Cargo.toml"), manifest.as_bytes());
+    write_if_changed(&scratch.join(".cargo/config.toml"), b"[net]\noffline = true\n");
+    if !scratch.join("Cargo.lock").exists() {
+        let lock = Path::new(env!("CARGO_MANIFEST_DIR")).join("Cargo.lock");
+        std::fs::copy(lock, scratch.join("Cargo.lock")).unwrap();
+    }
+    let out = std::process::Command::new("cargo")
+        .args(["run", "-p", "codegen", "--offline", "--quiet"])
+        .current_dir(&scratch)
+        .env("CARGO_TARGET_DIR", scratch.join("target"))
+        .env("CARGO_NET_OFFLINE", "true")
+        .env_remove("RUSTFLAGS")
+        .output();
+    match out {
+        Err(e) => return format!("regen-failed {}", tok(&e.to_string())),
+        Ok(o) if !o.status.success() => {
+            let err = String::from_utf8_lossy(&o.stderr);
+            let last = err.lines().rev().find(|l| !l.trim().is_empty()).unwrap_or("");
+            return format!("regen-failed {}", hex(last.as_bytes()));
+        }
+        Ok(_) => {}
+    }
+    let mut res: Vec<String> = Vec::new();
+    for c in GEN_CRATES {
+        let committed = repo.join(c).join("src/generated");
+        let fresh = scratch.join(c).join("src/generated");
+        let mut names: Vec<PathBuf> = files_under(&committed);
+        for f in files_under(&fresh) {
+            if !names.contains(&f) {
+                names.push(f);
+            }
+        }
+        names.sort();
+        for f in names {
+            let a = std::fs::read(committed.join(&f));
+            let b = std::fs::read(fresh.join(&f));
+            let verdict = match (a, b) {
+                (Ok(a), Ok(b)) if a == b => "same".to_string(),
+                (Ok(a), Ok(b)) => {
+                    let la: Vec<&[u8]> = a.split(|x| *x == b'\n').collect();
+                    let lb: Vec<&[u8]> = b.split(|x| *x == b'\n').collect();
+                    let k = la.iter().zip(lb.iter()).position(|(x, y)| x != y).unwrap_or(la.len().min(lb.len()));
+                    format!("differs-at-line-{}", k + 1)
+                }
+                (Ok(_), Err(_)) => "not-regenerated".to_string(),
+                (Err(_), Ok(_)) => "not-committed".to_string(),
+                _ => "unreadable".to_string(),
+            };
+            res.push(format!("{}/{}={}", c, f.display(), verdict));
+        }
+    }
+    res.sort();
+    format!("files {} {}", res.len(), res.join(" "))
+}
+
+// ---------------------------------------------------------------------------------------------
+// generation of cases
+
+const PACKAGES: [&str; 9] = ["", "a", "a.b", "grpc.health.v1", "A", "a.S", "my_pkg.v1", "x1.y2.z3", "pkg"];
+const SVC_NAMES: [&str; 10] = ["Greeter", "S", "s", "Health", "My_Service", "S1", "greeter", "ServerReflection", "X", "Svc"];
+// (rust fn, proto ident)
+const METHODS: [(&str, &str); 16] = [
+    ("say_hello", "SayHello"),
+    ("m", "M"),
+    ("mx", "Mx"),
+    ("check", "Check"),
+    ("watch", "Watch"),
+    ("get", "GET"),
+    ("do2", "Do2"),
+    ("snake_case", "snake_case"),
+    ("lower", "lower"),
+    ("a", "A"),
+    ("type_", "Type"),
+    ("match_", "Match"),
+    ("self_", "Self"),
+    ("x_1", "X_1"),
+    ("server_reflection_info", "ServerReflectionInfo"),
+    ("unary_call", "unaryCall"),
+];
+const TYPES: [&str; 6] = ["super::Req", "super::Resp", "crate::pb::HelloRequest", "crate::pb::HelloReply", "Msg1", "super::super::other::Empty2"];
+const MSGS: [&str; 6] = ["Req", "Resp", "HelloRequest", "HelloReply", "Msg1", "Empty2"];
+const SIDES: [&str; 3] = ["both", "client", "server"];
+
+fn pick_methods(rng: &mut Rng, n: usize) -> Vec<usize> {
+    let mut idx: Vec<usize> = (0..METHODS.len()).collect();
+    for x in (1..idx.len()).rev() {
+        let y = rng.below(x as u64 + 1) as usize;
+        idx.swap(x, y);
+    }
+    idx.truncate(n);
+    idx
+}
+
+fn gen_line(rng: &mut Rng, emit: bool, arc: bool, stubs: bool, transport: bool, sides: &str, pkg: &str, name: &str, ident: &str, ms: &[(usize, bool, bool)]) -> String {
+    let mut s = format!("gen {} {} {} {} {} {} {} {} {}", fl(emit), fl(arc), fl(stubs), fl(transport), sides, dash(pkg), name, ident, ms.len());
+    for &(k, cs, ss) in ms {
+        let (f, id) = METHODS[k];
+        let (i, o) = (*rng.pick(&TYPES), *rng.pick(&TYPES));
+        s.push_str(&format!(" {} {} {} {} {} {}", f, id, fl(cs), fl(ss), i, o));
+    }
+    s
+}
+
+fn manual_line(rng: &mut Rng, transport: bool, sides: &str, pkg: &str, name: &str, ms: &[(usize, bool, bool)]) -> String {
+    let mut s = format!("manual {} {} {} {} {}", fl(transport), sides, dash(pkg), name, ms.len());
+    for &(k, cs, ss) in ms {
+        let (f, id) = METHODS[k];
+        let (i, o) = (*rng.pick(&TYPES), *rng.pick(&TYPES));
+        s.push_str(&format!(" {} {} {} {} {} {}", f, id, fl(cs), fl(ss), i, o));
+    }
+    s
+}
+
+fn prost_line(rng: &mut Rng, emit: bool, arc: bool, stubs: bool, sides: &str, pkg: &str, svc: &str, ms: &[(usize, bool, bool)]) -> String {
+    let mut s = format!("prost {} {} {} {} {} {} {}", fl(emit), fl(arc), fl(stubs), sides, dash(pkg), svc, ms.len());
+    for &(k, cs, ss) in ms {
+        let (_, id) = METHODS[k];
+        let (i, o) = (*rng.pick(&MSGS), *rng.pick(&MSGS));
+        s.push_str(&format!(" {} {} {} {} {}", id, fl(cs), fl(ss), i, o));
+    }
+    s
+}
+
+pub fn generate(tier: &str, rng: &mut Rng) -> Vec<String> {
+    let thorough = tier == "thorough";
+    let mut out = Vec::new();
+    // ---- the clause without a quantifier
+    out.push("regen".to_string());
+
+    // ---- corpus: the descriptors of the committed generated crates, and the classic shapes
+    out.push("prost 1 0 0 both grpc.health.v1 Health 2 Check 0 0 HealthCheckRequest HealthCheckResponse Watch 0 1 HealthCheckRequest HealthCheckResponse".into());
+    out.push("prost 1 0 0 both grpc.reflection.v1 ServerReflection 1 ServerReflectionInfo 1 1 ServerReflectionRequest ServerReflectionResponse".into());
+    out.push("prost 1 0 0 both - Greeter 1 SayHello 0 0 HelloRequest HelloReply".into());
+    out.push("prost 0 0 0 both helloworld Greeter 1 SayHello 0 0 HelloRequest HelloReply".into());
+    out.push("gen 1 0 0 1 both helloworld Greeter Greeter 1 say_hello SayHello 0 0 super::HelloRequest super::HelloReply".into());
+    out.push("gen 0 0 0 1 both helloworld Greeter Greeter 1 say_hello SayHello 0 0 super::HelloRequest super::HelloReply".into());
+    out.push("gen 1 0 0 1 both - Greeter Greeter 0".into());
+    out.push("manual 1 both helloworld Greeter 1 say_hello SayHello 0 0 crate::HelloRequest super::HelloResponse".into());
+    out.push("manual 1 both - Greeter 4 m M 0 0 crate::A crate::B mx Mx 0 1 crate::A crate::B check Check 1 0 crate::B crate::A watch Watch 1 1 crate::B crate::B".into());
+
+    // ---- structured, exhaustive small scope: every package shape × emit × the 4 kinds × sides
+    for pkg in PACKAGES {
+        for emit in [true, false] {
+            for sides in SIDES {
+                let ms: Vec<(usize, bool, bool)> = vec![(0, false, false), (4, false, true), (1, true, false), (14, true, true)];
+                let (arc, stubs, transport) = (rng.chance(1, 2), rng.chance(1, 2), rng.chance(1, 2));
+                // Rust name deliberately differs from the proto identifier
+                out.push(gen_line(rng, emit, arc, stubs, transport, sides, pkg, "RustName", "ProtoName", &ms));
+                let sn = *rng.pick(&SVC_NAMES);
+                out.push(prost_line(rng, emit, arc, stubs, sides, pkg, sn, &ms));
+                if emit {
+                    let sn = *rng.pick(&SVC_NAMES);
+                    out.push(manual_line(rng, transport, sides, pkg, sn, &ms));
+                }
+            }
+        }
+    }
+    // every single method shape × kind × builder option combination (1-method services)
+    for k in 0..METHODS.len() {
+        for kind in 0..4u8 {
+            let (cs, ss) = (kind & 2 != 0, kind & 1 != 0);
+            for opt in 0..4u8 {
+                let (arc, stubs) = (opt & 1 != 0, opt & 2 != 0);
+                let pkg = *rng.pick(&PACKAGES);
+                let name = *rng.pick(&SVC_NAMES);
+                out.push(gen_line(rng, true, arc, stubs, true, "both", pkg, name, name, &[(k, cs, ss)]));
+                out.push(prost_line(rng, true, arc, stubs, "both", pkg, name, &[(k, cs, ss)]));
+            }
+        }
+    }
+
+    // ---- random descriptors
+    let nrand = if thorough { 30000 } else { 500 };
+    for _ in 0..nrand {
+        let n = match rng.below(10) {
+            0 => 0,
+            1..=3 => 1,
+            4..=6 => 2 + rng.below(3) as usize,
+            _ => 5 + rng.below(10) as usize,
+        };
+        let ms: Vec<(usize, bool, bool)> = pick_methods(rng, n).into_iter().map(|k| (k, rng.chance(1, 2), rng.chance(1, 2))).collect();
+        let pkg = *rng.pick(&PACKAGES);
+        let name = *rng.pick(&SVC_NAMES);
+        let sides = if rng.chance(2, 3) { "both" } else { *rng.pick(&SIDES) };
+        let (emit, arc, stubs, transport) = (rng.chance(3, 4), rng.chance(1, 3), rng.chance(1, 3), rng.chance(1, 2));
+        match rng.below(5) {
+            0 | 1 => {
+                let ident = if rng.chance(1, 2) { name } else { *rng.pick(&SVC_NAMES) };
+                out.push(gen_line(rng, emit, arc, stubs, transport, sides, pkg, name, ident, &ms))
+            }
+            2 => out.push(manual_line(rng, transport, sides, pkg, name, &ms)),
+            _ => out.push(prost_line(rng, emit, arc, stubs, sides, pkg, name, &ms)),
+        }
+    }
+
+    // ---- end to end through the compiled pool: every method of every pool service, alone,
+    // among all others, and absent
+    let n = POOL.len();
+    let all: Vec<usize> = (0..n).collect();
+    for i in 0..n {
+        for j in 0..POOL[i].2.len() {
+            out.push(e2e_line("routes", Wrap::Probe, &[i], i, j, 3));
+            out.push(e2e_line("builder", Wrap::ALL[(i + j) % 4], &all, i, j, (i + 2 * j) % 7));
+            let without: Vec<usize> = all.iter().copied().filter(|x| *x != i).collect();
+            out.push(e2e_line("routes", Wrap::ALL[(i + j + 1) % 4], &without, i, j, 1));
+        }
+    }
+    let ne2e = if thorough { 15000 } else { 400 };
+    for _ in 0..ne2e {
+        let k = 1 + rng.below(n as u64) as usize;
+        let mut order = all.clone();
+        for x in (1..order.len()).rev() {
+            let y = rng.below(x as u64 + 1) as usize;
+            order.swap(x, y);
+        }
+        order.truncate(k);
+        let i = if rng.chance(4, 5) { *rng.pick(&order) } else { rng.below(n as u64) as usize };
+        let j = rng.below(POOL[i].2.len() as u64) as usize;
+        let api = if rng.chance(1, 2) { "routes" } else { "builder" };
+        out.push(e2e_line(api, *rng.pick(&Wrap::ALL), &order, i, j, rng.below(40) as usize));
+    }
+    out
+}
+
+pub fn execute(case: &str) -> String {
+    let t: Vec<&str> = case.split(' ').collect();
+    match t[0] {
+        "gen" => run_gen(&t),
+        "manual" => run_manual(&t),
+        "prost" => run_prost(&t),
+        "e2e" => run_e2e(&t),
+        "regen" => run_regen(),
+        _ => "bad-case".into(),
+    }
 }
